@@ -120,6 +120,8 @@ def mod_term(x, y):
 
 def identical(a, b):
     """`a is b` -> python bool or z3 Bool."""
+    if isinstance(a, TypeRef) or isinstance(b, TypeRef):
+        return isinstance(a, TypeRef) and isinstance(b, TypeRef) and a.name == b.name
     if a is None or b is None:
         if a is None and b is None:
             return True
@@ -150,6 +152,8 @@ def identical(a, b):
 
 def equal(a, b):
     """`a == b` -> python bool or z3 Bool."""
+    if isinstance(a, TypeRef) or isinstance(b, TypeRef):
+        return isinstance(a, TypeRef) and isinstance(b, TypeRef) and a.name == b.name
     if a is None or b is None:
         return a is None and b is None
     if isinstance(a, tuple) and isinstance(b, tuple):
